@@ -40,7 +40,7 @@ def run_parts(prop, parts):
             m, j = mj[k]
             if part.get("driver") and not cmp_(c, impl[k], m):
                 mism.append(k)
-            if (j.startswith("bad") and not part.get("ignore_judge")) or impl[k].startswith("CRASH") or impl[k].startswith("TIMEOUT"):
+            if (j.startswith("bad") and not part.get("ignore_judge")) or impl[k].startswith(("CRASH", "TIMEOUT", "PANIC")):
                 jf.append(k)
             elif part.get("impl_ok") and not part["impl_ok"](c, impl[k]):
                 jf.append(k)
